@@ -56,15 +56,15 @@ import (
 )
 
 const (
-	c01xRouter  = "c01xRouter"
-	c01xCluster = hpCluster
+	c01xpRouter  = "c01xpRouter"
+	c01xpCluster = hpCluster
 )
 
-var c01xOnce sync.Once
+var c01xpOnce sync.Once
 
-func c01xInit() {
+func c01xpInit() {
 	hpInit() // fake client connections, vrt worker pool shim, bolt + boltv2
-	c01xOnce.Do(func() {
+	c01xpOnce.Do(func() {
 		for _, cd := range []api.XProtocolCodec{&dubbo.XCodec{}, &dubbothrift.XCodec{}, &tars.XCodec{}} {
 			_ = xproto.RegisterXProtocolCodec(cd)
 		}
@@ -72,14 +72,14 @@ func c01xInit() {
 		// without it the configured downstream protocol is ignored and auto-detected
 		_ = variable.Register(variable.NewVariable(types.VarProtocolConfig, nil, nil, variable.DefaultSetter, 0))
 		cfg := map[string]interface{}{
-			"router_config_name": c01xRouter,
+			"router_config_name": c01xpRouter,
 			"virtual_hosts": []interface{}{map[string]interface{}{
 				"name":    "vh",
 				"domains": []string{"*"},
 				// no match condition: the rpc rule with an empty header list matches every request
 				"routers": []interface{}{map[string]interface{}{
 					"match": map[string]interface{}{},
-					"route": map[string]interface{}{"cluster_name": c01xCluster},
+					"route": map[string]interface{}{"cluster_name": c01xpCluster},
 				}},
 			}},
 		}
@@ -95,20 +95,20 @@ func c01xInit() {
 	})
 }
 
-type c01xCodec struct {
+type c01xpCodec struct {
 	sp    *vc01sl.Spec
 	proto api.ProtocolName
 }
 
-// c01xStep is one exchange of an execution.
-type c01xStep struct {
+// c01xpStep is one exchange of an execution.
+type c01xpStep struct {
 	req    func(id uint64) []byte
 	resp   func(id uint64) []byte
 	downID uint64
 	role   string // request | oneway | heartbeat (what the request frame is)
 }
 
-type c01xObs struct {
+type c01xpObs struct {
 	down    *vfake.Conn
 	ups     []*vfake.Conn
 	upIDs   []uint64 // id read from the k-th forwarded request
@@ -116,8 +116,8 @@ type c01xObs struct {
 	harness string
 }
 
-func c01xBody(cd *c01xCodec, listener string, steps []c01xStep, obs *c01xObs) {
-	c01xInit()
+func c01xpBody(cd *c01xpCodec, listener string, steps []c01xpStep, obs *c01xpObs) {
+	c01xpInit()
 	vfake.Reset()
 	done := false
 	answered := 0
@@ -172,7 +172,7 @@ func c01xBody(cd *c01xCodec, listener string, steps []c01xStep, obs *c01xObs) {
 		}
 	}
 	cc, hosts := hpClusterConfig(&hpScenario{Hosts: 1})
-	cluster.NewClusterManagerSingleton([]v2.Cluster{cc}, map[string][]v2.Host{c01xCluster: hosts}, nil)
+	cluster.NewClusterManagerSingleton([]v2.Cluster{cc}, map[string][]v2.Host{c01xpCluster: hosts}, nil)
 	*cluster.GetHealthFlagPointer(hpHostAddr(0)) = 0
 
 	ctx := variable.NewVariableContext(context.Background())
@@ -186,13 +186,13 @@ func c01xBody(cd *c01xCodec, listener string, steps []c01xStep, obs *c01xObs) {
 	_ = variable.Set(ctx, types.VariableConnection, down)
 	_ = variable.Set(ctx, types.VariableConnectionID, down.ID())
 	obs.down = down
-	p := NewProxy(ctx, &v2.Proxy{DownstreamProtocol: string(cd.proto), UpstreamProtocol: string(cd.proto), RouterConfigName: c01xRouter}).(*proxy)
+	p := NewProxy(ctx, &v2.Proxy{DownstreamProtocol: string(cd.proto), UpstreamProtocol: string(cd.proto), RouterConfigName: c01xpRouter}).(*proxy)
+	down.FilterManager().AddReadFilter(p)
+	down.FilterManager().InitializeReadFilters()
 	if p.serverStreamConn == nil {
 		obs.harness = "the proxy did not create the server stream connection from its configured protocol"
 		return
 	}
-	down.FilterManager().AddReadFilter(p)
-	down.FilterManager().InitializeReadFilters()
 
 	vrt.GoNamed("env:down-client", func() {
 		for i := range steps {
@@ -209,10 +209,10 @@ func c01xBody(cd *c01xCodec, listener string, steps []c01xStep, obs *c01xObs) {
 	_ = answered
 }
 
-type c01xFinding struct{ dir, res, detail string }
+type c01xpFinding struct{ dir, res, detail string }
 
-// c01xJudge compares what was written on both sides with the reference frames.
-func c01xJudge(cd *c01xCodec, c vc01.Case, dirs [][2]string, steps []c01xStep, obs *c01xObs) *c01xFinding {
+// c01xpJudge compares what was written on both sides with the reference frames.
+func c01xpJudge(cd *c01xpCodec, c vc01.Case, dirs [][2]string, steps []c01xpStep, obs *c01xpObs) *c01xpFinding {
 	sp := cd.sp
 	var wantDown []byte
 	var up []byte
@@ -220,10 +220,10 @@ func c01xJudge(cd *c01xCodec, c vc01.Case, dirs [][2]string, steps []c01xStep, o
 		up = obs.ups[0].Written()
 	}
 	if obs.upErr != "" {
-		return &c01xFinding{dirs[0][0], "forwarded-frame-not-well-formed", obs.upErr}
+		return &c01xpFinding{dirs[0][0], "forwarded-frame-not-well-formed", obs.upErr}
 	}
 	if len(obs.ups) > 1 {
-		return &c01xFinding{dirs[0][0], "more-than-one-upstream-connection", fmt.Sprintf("%d upstream connections for sequential exchanges", len(obs.ups))}
+		return &c01xpFinding{dirs[0][0], "more-than-one-upstream-connection", fmt.Sprintf("%d upstream connections for sequential exchanges", len(obs.ups))}
 	}
 	off, k := 0, 0
 	downOff := 0
@@ -258,17 +258,17 @@ func c01xJudge(cd *c01xCodec, c vc01.Case, dirs [][2]string, steps []c01xStep, o
 			rest := downW[downOff:]
 			_, n, err := sp.WireID(rest, true)
 			if err != nil || n == 0 {
-				return &c01xFinding{reqDir, "heartbeat-not-answered", fmt.Sprintf("exchange %d: %d bytes written downstream after a heartbeat request (%v)", i+1, len(rest), err)}
+				return &c01xpFinding{reqDir, "heartbeat-not-answered", fmt.Sprintf("exchange %d: %d bytes written downstream after a heartbeat request (%v)", i+1, len(rest), err)}
 			}
 			if why := sp.CheckAck(c, rest[:n]); why != "" {
-				return &c01xFinding{reqDir, "heartbeat-answer-malformed", fmt.Sprintf("exchange %d: %s", i+1, why)}
+				return &c01xpFinding{reqDir, "heartbeat-answer-malformed", fmt.Sprintf("exchange %d: %s", i+1, why)}
 			}
 			downOff += n
 			continue
 		}
 		// the forwarded request
 		if k >= len(obs.upIDs) {
-			return &c01xFinding{reqDir, "request-not-forwarded", fmt.Sprintf("exchange %d: no (further) frame was written upstream; upstream connections %d, bytes upstream %d, bytes downstream %d, downstream closed %v",
+			return &c01xpFinding{reqDir, "request-not-forwarded", fmt.Sprintf("exchange %d: no (further) frame was written upstream; upstream connections %d, bytes upstream %d, bytes downstream %d, downstream closed %v",
 				i+1, len(obs.ups), len(up), len(downW), obs.down.IsClosed())}
 		}
 		uid := obs.upIDs[k]
@@ -284,7 +284,7 @@ func c01xJudge(cd *c01xCodec, c vc01.Case, dirs [][2]string, steps []c01xStep, o
 			got = up[off : off+n]
 		}
 		if !bytes.Equal(got, want) {
-			return &c01xFinding{reqDir, classify(true, st.req, st.downID, want, got), fmt.Sprintf("exchange %d: expected the received frame with only the request id replaced by %d (read from the forwarded frame; downstream id %d): %s",
+			return &c01xpFinding{reqDir, classify(true, st.req, st.downID, want, got), fmt.Sprintf("exchange %d: expected the received frame with only the request id replaced by %d (read from the forwarded frame; downstream id %d): %s",
 				i+1, uid, st.downID, vref.FirstDiff(want, got))}
 		}
 		off += len(got)
@@ -295,7 +295,7 @@ func c01xJudge(cd *c01xCodec, c vc01.Case, dirs [][2]string, steps []c01xStep, o
 		wantDown = st.resp(st.downID)
 		rest := downW[downOff:]
 		if len(rest) == 0 {
-			return &c01xFinding{respDir, "response-not-forwarded", fmt.Sprintf("exchange %d: the upstream answered request id %d, nothing was written downstream (downstream closed %v)", i+1, uid, obs.down.IsClosed())}
+			return &c01xpFinding{respDir, "response-not-forwarded", fmt.Sprintf("exchange %d: the upstream answered request id %d, nothing was written downstream (downstream closed %v)", i+1, uid, obs.down.IsClosed())}
 		}
 		gotD := rest
 		if _, n, err := sp.WireID(rest, true); err == nil {
@@ -304,39 +304,39 @@ func c01xJudge(cd *c01xCodec, c vc01.Case, dirs [][2]string, steps []c01xStep, o
 			gotD = gotD[:len(wantDown)]
 		}
 		if !bytes.Equal(gotD, wantDown) {
-			return &c01xFinding{respDir, classify(false, st.resp, uid, wantDown, gotD), fmt.Sprintf("exchange %d: expected the received response with only the request id replaced by the downstream's %d (the upstream answered with %d): %s",
+			return &c01xpFinding{respDir, classify(false, st.resp, uid, wantDown, gotD), fmt.Sprintf("exchange %d: expected the received response with only the request id replaced by the downstream's %d (the upstream answered with %d): %s",
 				i+1, st.downID, uid, vref.FirstDiff(wantDown, rest))}
 		}
 		downOff += len(gotD)
 	}
 	if off != len(up) {
-		return &c01xFinding{dirs[0][0], "forwarded-frame-written-more-than-once", fmt.Sprintf("%d bytes written upstream, the forwarded requests account for %d", len(up), off)}
+		return &c01xpFinding{dirs[0][0], "forwarded-frame-written-more-than-once", fmt.Sprintf("%d bytes written upstream, the forwarded requests account for %d", len(up), off)}
 	}
 	if downOff != len(downW) {
 		d := dirs[0][1]
 		if steps[0].role == vc01sl.Oneway {
-			return &c01xFinding{dirs[0][0], "bytes-written-downstream-for-a-one-way-request", fmt.Sprintf("%d bytes written downstream, the expected responses account for %d: %x", len(downW), downOff, downW[downOff:c01xMin(len(downW), downOff+48)])}
+			return &c01xpFinding{dirs[0][0], "bytes-written-downstream-for-a-one-way-request", fmt.Sprintf("%d bytes written downstream, the expected responses account for %d: %x", len(downW), downOff, downW[downOff:c01xpMin(len(downW), downOff+48)])}
 		}
-		return &c01xFinding{d, "forwarded-frame-written-more-than-once", fmt.Sprintf("%d bytes written downstream, the forwarded responses account for %d", len(downW), downOff)}
+		return &c01xpFinding{d, "forwarded-frame-written-more-than-once", fmt.Sprintf("%d bytes written downstream, the forwarded responses account for %d", len(downW), downOff)}
 	}
 	return nil
 }
 
-func c01xMin(a, b int) int {
+func c01xpMin(a, b int) int {
 	if a < b {
 		return a
 	}
 	return b
 }
 
-func c01xKey(sp *vc01sl.Spec, c vc01.Case, dir, what string) string {
+func c01xpKey(sp *vc01sl.Spec, c vc01.Case, dir, what string) string {
 	if c.Mode != "" {
 		return fmt.Sprintf("codec=%s mode=%s dir=%s %s", sp.Name, c.Mode, dir, what)
 	}
 	return fmt.Sprintf("codec=%s dir=%s %s", sp.Name, dir, what)
 }
 
-func c01xCheck(p *vreport.Part, cd *c01xCodec, c vc01.Case) {
+func c01xpCheck(p *vreport.Part, cd *c01xpCodec, c vc01.Case) {
 	sp := cd.sp
 	p.Distinct(fmt.Sprintf("%s|%s|%s|%d|%s|%d|%d|%d|%d|%s|%d|%s", c.Codec, c.Dir, c.Kind, c.Class, c.Hdr, c.Body, c.Seed, c.ID, c.NewID, c.Field, c.Val, c.Mode))
 	if sp.Skip != nil {
@@ -354,15 +354,15 @@ func c01xCheck(p *vreport.Part, cd *c01xCodec, c vc01.Case) {
 	stdReq := func(id uint64) []byte { return sp.Std(false, id) }
 	stdResp := func(id uint64) []byte { return sp.Std(true, id) }
 	caseFrame := func(id uint64) []byte { return sp.Frame(c, id) }
-	var first c01xStep
+	var first c01xpStep
 	dirs := [][2]string{{c.Dir, "response"}, {"request", "response"}}
 	if role == vc01sl.Response {
-		first = c01xStep{req: stdReq, resp: caseFrame, downID: c.NewID, role: vc01sl.Request}
+		first = c01xpStep{req: stdReq, resp: caseFrame, downID: c.NewID, role: vc01sl.Request}
 		dirs[0] = [2]string{"request", c.Dir}
 	} else {
-		first = c01xStep{req: caseFrame, resp: stdResp, downID: c.ID, role: role}
+		first = c01xpStep{req: caseFrame, resp: stdResp, downID: c.ID, role: role}
 	}
-	steps := []c01xStep{first, {req: stdReq, resp: stdResp, downID: 0x7a7b7c7d, role: vc01sl.Request}}
+	steps := []c01xpStep{first, {req: stdReq, resp: stdResp, downID: 0x7a7b7c7d, role: vc01sl.Request}}
 	listener := ""
 	if sp.Listener != nil {
 		listener = sp.Listener(c)
@@ -374,13 +374,13 @@ func c01xCheck(p *vreport.Part, cd *c01xCodec, c vc01.Case) {
 			tries = 16
 		}
 	}
-	var f *c01xFinding
+	var f *c01xpFinding
 	for t := 0; t < tries && f == nil; t++ {
-		obs := &c01xObs{}
+		obs := &c01xpObs{}
 		var res *vrt.Result
 		vrt.Explore(vrt.Options{Replay: true, Delay: true, MaxSteps: 400000, KeepProcs: true}, func() {
-			*obs = c01xObs{}
-			c01xBody(cd, listener, steps, obs)
+			*obs = c01xpObs{}
+			c01xpBody(cd, listener, steps, obs)
 		}, func(r *vrt.Result) { res = r })
 		if obs.harness != "" {
 			vreport.HarnessError(p.Prop, p.Name, obs.harness)
@@ -396,13 +396,13 @@ func c01xCheck(p *vreport.Part, cd *c01xCodec, c vc01.Case) {
 				vreport.HarnessError(p.Prop, p.Name, "panic in a harness thread: "+pn)
 				return
 			}
-			f = &c01xFinding{dirs[0][0], "proxy-goroutine-panics", pn}
+			f = &c01xpFinding{dirs[0][0], "proxy-goroutine-panics", pn}
 		}
 		if f == nil && len(res.Recovered) > 0 {
-			f = &c01xFinding{dirs[0][0], "proxy-goroutine-panics", "recovered by the proxy's own handler: " + strings.Join(res.Recovered, " | ")}
+			f = &c01xpFinding{dirs[0][0], "proxy-goroutine-panics", "recovered by the proxy's own handler: " + strings.Join(res.Recovered, " | ")}
 		}
 		if f == nil {
-			f = c01xJudge(cd, c, dirs, steps, obs)
+			f = c01xpJudge(cd, c, dirs, steps, obs)
 		}
 	}
 	if f == nil {
@@ -410,11 +410,11 @@ func c01xCheck(p *vreport.Part, cd *c01xCodec, c vc01.Case) {
 		return
 	}
 	p.Outcome(f.res)
-	p.Violation(c01xKey(sp, c, f.dir, f.res), f.detail, c)
+	p.Violation(c01xpKey(sp, c, f.dir, f.res), f.detail, c)
 }
 
-// c01xKeep is the quick-tier restriction of the stream-layer grid.
-func c01xKeep(c vc01.Case, role string) bool {
+// c01xpKeep is the quick-tier restriction of the stream-layer grid.
+func c01xpKeep(c vc01.Case, role string) bool {
 	if c.Scribble {
 		// the connection read buffers are the fake connection's own; their reuse is
 		// what the second exchange of every execution does
@@ -442,9 +442,9 @@ func c01xKeep(c vc01.Case, role string) bool {
 	return true
 }
 
-const c01xRule = "one case = one execution of the default schedule (no deviations) of the full proxy stack on fake connections under the controlled scheduler: the downstream client sends the case's request (or, for response cases, a small standard request carrying the case's new id), the upstream peer answers every forwarded two-way request with the small standard response (or the case's response frame) carrying the id read from the forwarded frame by the reference parser; once the proxy is idle a second, standard exchange follows on the same connections. All bytes written upstream must be exactly the reference encodings of the requests with the upstream ids, all bytes written downstream exactly the reference encodings of the responses with the downstream ids (one-way: none; heartbeat: one heartbeat answer, no upstream traffic). Route: one catch-all rpc rule, no retry, no stream filter. tars frames with >= 2 map entries are repeated up to 16 times. distinct = distinct (dir,kind,lengths,shape,ids,field,value,mode)"
+const c01xpRule = "one case = one execution of the default schedule (no deviations) of the full proxy stack on fake connections under the controlled scheduler: the downstream client sends the case's request (or, for response cases, a small standard request carrying the case's new id), the upstream peer answers every forwarded two-way request with the small standard response (or the case's response frame) carrying the id read from the forwarded frame by the reference parser; once the proxy is idle a second, standard exchange follows on the same connections. All bytes written upstream must be exactly the reference encodings of the requests with the upstream ids, all bytes written downstream exactly the reference encodings of the responses with the downstream ids (one-way: none; heartbeat: one heartbeat answer, no upstream traffic). Route: one catch-all rpc rule, no retry, no stream filter. tars frames with >= 2 map entries are repeated up to 16 times. distinct = distinct (dir,kind,lengths,shape,ids,field,value,mode)"
 
-func c01xPart(t *testing.T, name string, cd *c01xCodec) {
+func c01xpPart(t *testing.T, name string, cd *c01xpCodec) {
 	old := runtime.GOMAXPROCS(1)
 	defer runtime.GOMAXPROCS(old)
 	p := vreport.Begin("C01", "xproxy-"+name, time.Duration(vreport.Pick(120, 1500))*time.Second)
@@ -453,7 +453,7 @@ func c01xPart(t *testing.T, name string, cd *c01xCodec) {
 	complete := vreport.Run(p,
 		func(yield func(vc01.Case) bool) {
 			cd.sp.Cases(func(c vc01.Case) bool {
-				if !c01xKeep(c, cd.sp.Role(c)) {
+				if !c01xpKeep(c, cd.sp.Role(c)) {
 					return true
 				}
 				k := idx
@@ -464,28 +464,28 @@ func c01xPart(t *testing.T, name string, cd *c01xCodec) {
 				return yield(c)
 			})
 		},
-		func(p *vreport.Part, c vc01.Case) { c01xCheck(p, cd, c) })
-	p.End(complete, cd.sp.Bound+"; level 2 keeps (quick) class-like length {0,256} x shapes without the 300-pair one x body {0,256,65536} x the id pairs not starting at 1, every sweep/zero/max case, 8 of the 256 one-byte bodies; (thorough) the codec unit's full grid with the id that plays no role at this level fixed to 0; read buffers: the connections' own", c01xRule)
+		func(p *vreport.Part, c vc01.Case) { c01xpCheck(p, cd, c) })
+	p.End(complete, cd.sp.Bound+"; level 2 keeps (quick) class-like length {0,256} x shapes without the 300-pair one x body {0,256,65536} x the id pairs not starting at 1, every sweep/zero/max case, 8 of the 256 one-byte bodies; (thorough) the codec unit's full grid with the id that plays no role at this level fixed to 0; read buffers: the connections' own", c01xpRule)
 }
 
 func TestVerifC01XProxyBolt(t *testing.T) {
-	c01xPart(t, "bolt", &c01xCodec{sp: vc01sl.Bolt(false), proto: bolt.ProtocolName})
+	c01xpPart(t, "bolt", &c01xpCodec{sp: vc01sl.Bolt(false), proto: bolt.ProtocolName})
 }
 
 func TestVerifC01XProxyBoltv2(t *testing.T) {
-	c01xPart(t, "boltv2", &c01xCodec{sp: vc01sl.Bolt(true), proto: boltv2.ProtocolName})
+	c01xpPart(t, "boltv2", &c01xpCodec{sp: vc01sl.Bolt(true), proto: boltv2.ProtocolName})
 }
 
 func TestVerifC01XProxyDubbo(t *testing.T) {
-	c01xPart(t, "dubbo", &c01xCodec{sp: vc01sl.Dubbo(), proto: dubbo.ProtocolName})
+	c01xpPart(t, "dubbo", &c01xpCodec{sp: vc01sl.Dubbo(), proto: dubbo.ProtocolName})
 }
 
 func TestVerifC01XProxyDubboThrift(t *testing.T) {
-	c01xPart(t, "dubbothrift", &c01xCodec{sp: vc01sl.DubboThrift(), proto: dubbothrift.ProtocolName})
+	c01xpPart(t, "dubbothrift", &c01xpCodec{sp: vc01sl.DubboThrift(), proto: dubbothrift.ProtocolName})
 }
 
 func TestVerifC01XProxyTars(t *testing.T) {
-	c01xPart(t, "tars", &c01xCodec{sp: vc01sl.Tars(), proto: tars.ProtocolName})
+	c01xpPart(t, "tars", &c01xpCodec{sp: vc01sl.Tars(), proto: tars.ProtocolName})
 }
 
 var _ = time.Second
